@@ -4,7 +4,11 @@
 package ca
 
 import (
+	v1 "k8s.io/api/core/v1"
+
+	"istio.io/istio/pkg/cluster"
 	"istio.io/istio/pkg/kube"
+	"istio.io/istio/pkg/kube/controllers"
 )
 
 // VerifHasNodeAuthorizer reports whether impersonation support (CA_TRUSTED_NODE_ACCOUNTS) is configured.
@@ -23,3 +27,21 @@ func (s *Server) VerifWaitNodeAuthorizers(stop <-chan struct{}) {
 // VerifSetCA swaps the signing CA of a server (the harness reuses one server, with its informers,
 // across many CA configurations).
 func (s *Server) VerifSetCA(c CertificateAuthority) { s.ca = c }
+
+// VerifOnPodEvent registers fn on the pod informer of the node authorizer of one cluster (false when
+// there is none); the history cases of the harness wait for their own pod events with it.
+func (s *Server) VerifOnPodEvent(id cluster.ID, fn func(event string, pod *v1.Pod)) bool {
+	if s.nodeAuthorizer == nil {
+		return false
+	}
+	na := s.nodeAuthorizer.component.ForCluster(id)
+	if na == nil {
+		return false
+	}
+	(*na).pods.AddEventHandler(controllers.EventHandler[*v1.Pod]{
+		AddFunc:    func(p *v1.Pod) { fn("add", p) },
+		UpdateFunc: func(_, p *v1.Pod) { fn("update", p) },
+		DeleteFunc: func(p *v1.Pod) { fn("delete", p) },
+	})
+	return true
+}
